@@ -6,6 +6,7 @@ classifies every obligation, prints VIOLATION / KNOWN-FINDING / UNDECIDED lines,
 writes /verif/evidence/<PROP>.json.  Exit 1 iff a VIOLATION was printed.
 """
 import argparse
+import re
 import json
 import os
 import shutil
@@ -172,7 +173,7 @@ def classify(pid, results, baseline, known):
     return rep
 
 
-def write_replay(pid, o, workdir, note=""):
+def write_replay(pid, o, workdir, note="", conc=None):
     d = os.path.join(os.environ.get("VERIF_OUT_DIR") or os.path.join(VERIF, "out"), "replay", pid)
     os.makedirs(d, exist_ok=True)
     name = "".join(c if c.isalnum() or c in "-_." else "_" for c in o["name"])[:150]
@@ -187,9 +188,132 @@ def write_replay(pid, o, workdir, note=""):
     with open(path, "w") as f:
         json.dump({"property": pid, "obligation": o["name"], "clause": o["clause"], "kind": o["kind"], "pos": o["pos"], "src": o.get("src"),
                    "desc": o["desc"], "verdict": o["verdict"], "solver": o["solver"], "solver_output": o.get("output", ""),
-                   "failing_input": None, "note": note or "no-failing-input-found: the verifier gave no model that replays as an input of the real function",
+                   "failing_input": (conc or {}).get("confirmed"),
+                   "concretisation": conc,
+                   "note": note or ("the verifier's model was rebuilt as a concrete input and the real function fails on it (see failing_input; re-run with --replay)"
+                                    if conc and conc.get("confirmed") else
+                                    "no-failing-input-found: the verifier gave no model that replays as an input of the real function"),
                    "smt_query": smt[-20000:]}, f, indent=1)
     return path
+
+
+ADAPTERS = os.path.join(VERIF, "replay", "adapters", "adapters.json")
+
+
+def run_adapter(ad, inp, workdir):
+    """Runs the adapter test on the real package (go test -overlay) with the model's input. Returns (failed_with_REPLAY-FAIL, output tail)."""
+    ipath = os.path.join(workdir, "replay_input.json")
+    with open(ipath, "w") as f:
+        json.dump(inp, f)
+    src = os.path.join(VERIF, ad["test"])
+    dst = os.path.join(REPO, ad["pkg"].lstrip("./"), "zz_verif_replay_adapter_test.go")
+    ov = os.path.join(workdir, "ov_adapter.json")
+    with open(ov, "w") as f:
+        json.dump({"Replace": {dst: src}}, f)
+    env = go_env()
+    env["VERIF_REPLAY_INPUT"] = ipath
+    try:
+        p = subprocess.run("ulimit -v 8000000; exec go test -overlay %s -vet=off -count=1 -timeout 60s -run '^%s$' %s/" % (ov, ad["run"], ad["pkg"]),
+                           shell=True, cwd=REPO, env=env, stdout=subprocess.PIPE, stderr=subprocess.STDOUT, text=True, timeout=300)
+        out = p.stdout
+    except subprocess.TimeoutExpired:
+        return False, "adapter timed out"
+    tail = "\n".join(l for l in out.splitlines() if not l.startswith("{"))[-1500:]
+    return ("REPLAY-FAIL" in out), tail
+
+
+def norm_value(v):
+    """SMT literal -> decimal text (bit-vector literals are read as signed)."""
+    v = v.strip()
+    m = re.fullmatch(r"#x([0-9a-fA-F]+)", v)
+    if m:
+        w = 4 * len(m.group(1))
+        n = int(m.group(1), 16)
+        return str(n - (1 << w) if w >= 8 and n >> (w - 1) else n)
+    m = re.fullmatch(r"#b([01]+)", v)
+    if m:
+        return str(int(m.group(1), 2))
+    m = re.fullmatch(r"\(\s*-\s*(\d+)\s*\)", v)
+    if m:
+        return "-" + m.group(1)
+    return v
+
+
+def printable_inputs(inputs):
+    """Renders byte-slice / string inputs of a model as text, the rest as name=value."""
+    parts = []
+    first = ("data", "s", "content", "selector", "b")
+    names = sorted(set(k[:-4] for k in inputs if k.endswith(".len")), key=lambda n: (n not in first, n))
+    for n in names:
+        try:
+            ln = int(inputs[n + ".len"])
+        except ValueError:
+            continue
+        if 0 <= ln <= 4096 and any(k.startswith(n + "[") for k in inputs):
+            bs = []
+            for i in range(ln):
+                try:
+                    bs.append(int(inputs.get("%s[%d]" % (n, i), "63")) & 255)
+                except ValueError:
+                    bs.append(63)
+            if bs and set(bs) <= {63} and n not in first:
+                continue
+            parts.append("%s=%r" % (n, bytes(bs)))
+    for k in sorted(inputs):
+        if not k.endswith(".len") and "[" not in k:
+            parts.append("%s=%s" % (k, inputs[k]))
+    return " ".join(parts)
+
+
+def concretise(o, workdir, budget):
+    """Counterexample search for a failed obligation: re-runs govc on the function in concretisation mode (loops unrolled K times,
+    in-repo callees inlined), asks the solver for the values of the function's inputs, rebuilds them and runs the REAL function through
+    the package's replay adapter. Only an input on which the real code fails is reported."""
+    ads = load_json(ADAPTERS, {})
+    fn = o.get("func") or ""
+    pkgs = o.get("_pkgs") or []
+    cands = []
+    for name, ad in ads.items():
+        if name.startswith("_") or ad["pkg"] not in pkgs:
+            continue
+        if fn in ad["functions"]:
+            cands.append((ad, fn))
+    if not cands:
+        return {"tried": [], "reason": "no replay adapter for " + fn}
+    clause_id = o["clause"].split(" :: ", 1)[-1]
+    clause_id = re.sub(r"#\d+$", "", clause_id)
+    info = {"tried": [], "confirmed": None}
+    targets = [("%s@%s" % (clause_id, o["pos"]), (1, 2, 3, 6))]
+    if not clause_id.startswith("safety:"):
+        # a loop invariant / assertion has no counterpart in the unrolled program: look for any run-time panic of the function instead
+        targets.append(("safety:", (2, 4)))
+    for ad, f in cands:
+        for target, ks in targets:
+            for k in ks:
+                if budget[0] <= 0:
+                    info["reason"] = "time budget for counterexample search used up"
+                    return info
+                t1 = time.time()
+                tag = "conc_%s_%d_%d" % ("".join(c if c.isalnum() else "_" for c in f)[:40], k, len(info["tried"]))
+                res, log = run_govc([ad["pkg"]], re.escape(f) + "$", 8, workdir, tag, extra=["-unroll", str(k), "-target", target])
+                budget[0] -= time.time() - t1
+                if res is None:
+                    info["tried"].append({"unroll": k, "target": target, "error": log.strip()[-300:]})
+                    continue
+                models = [x for fr in res.get("functions", []) for x in (fr.get("obligations") or []) if x.get("verdict") == "sat" and x.get("model_inputs")]
+                info["tried"].append({"unroll": k, "target": target, "models": len(models)})
+                for m in models[:6]:
+                    m["model_inputs"] = {a: norm_value(b) for a, b in m["model_inputs"].items()}
+                    inp = {"func": f, "inputs": m["model_inputs"]}
+                    t1 = time.time()
+                    failed, tail = run_adapter(ad, inp, workdir)
+                    budget[0] -= time.time() - t1
+                    if failed:
+                        info["confirmed"] = {"adapter": ad, "input": inp, "unroll": k, "target": target, "model_of": m["name"],
+                                             "printable": printable_inputs(m["model_inputs"]), "real_code_output": tail}
+                        return info
+                    info["tried"][-1].setdefault("not_reproduced", []).append(printable_inputs(m["model_inputs"])[:200])
+    return info
 
 
 def main():
@@ -213,6 +337,18 @@ def main():
         with open(args.replay) as f:
             r = json.load(f)
         print(json.dumps({k: r[k] for k in ("property", "obligation", "clause", "pos", "desc", "verdict", "failing_input", "note")}, indent=1))
+        fi = r.get("failing_input")
+        if fi and fi.get("adapter"):
+            wd = tempfile.mkdtemp(prefix="verif-replay-")
+            try:
+                failed, tail = run_adapter(fi["adapter"], fi["input"], wd)
+            finally:
+                shutil.rmtree(wd, ignore_errors=True)
+            print(tail)
+            if failed:
+                print("VIOLATION property=%s replay=%s the stored input still fails on the real code" % (r["property"], args.replay))
+                return 1
+            print("the stored input no longer fails on the current tree")
         return 0
     workdir = tempfile.mkdtemp(prefix="verif-%s-" % pid)
     try:
@@ -226,6 +362,9 @@ def main():
             if res is None:
                 fatal = log
                 break
+            for fr in res.get("functions", []):
+                for o in fr.get("obligations") or []:
+                    o["_pkgs"] = pkgs
             results.append(res)
         baseline = load_json(BASELINE, {})
         known = load_json(KNOWN, {"findings": []})
@@ -253,9 +392,15 @@ def main():
         rc = 0
         for o, k in rep["known"]:
             print("KNOWN-FINDING: property=%s %s [%s @ %s]" % (pid, k["what"], o["clause"], o.get("src")))
+        budget = [240.0 if tier == "quick" else 900.0]
         for o in rep["violations"]:
-            path = write_replay(pid, o, workdir)
-            print("VIOLATION property=%s replay=%s obligation=%s (%s: %s) no-failing-input-found" % (pid, path, o["name"], o["verdict"], o["desc"][:160]))
+            conc = concretise(o, workdir, budget)
+            path = write_replay(pid, o, workdir, conc=conc)
+            if conc and conc.get("confirmed"):
+                print("VIOLATION property=%s replay=%s obligation=%s (%s: %s) failing-input=%s" % (
+                    pid, path, o["name"], o["verdict"], o["desc"][:160], conc["confirmed"]["printable"][:120]))
+            else:
+                print("VIOLATION property=%s replay=%s obligation=%s (%s: %s) no-failing-input-found" % (pid, path, o["name"], o["verdict"], o["desc"][:160]))
             rc = 1
         for o in rep["undecided"]:
             print("UNDECIDED property=%s obligation=%s (%s) not in baseline: %s" % (pid, o["name"], o["verdict"], o["desc"][:120]))
@@ -271,6 +416,9 @@ def main():
             rc = max(rc, rc2)
         write_evidence(pid, P, tier, seed, t0, rep, None, results, extra)
         n = len(rep["obligations"])
+        n0 = (baseline.get(pid) or {}).get("obligations") or 0
+        if n0 and n < 0.9 * n0:
+            print("NOTE property=%s coverage shrank: %d obligations generated, %d when the baseline was recorded (see UNDECIDED lines)" % (pid, n, n0))
         d = sum(1 for o in rep["obligations"] if o["verdict"] == "unsat")
         print("%s %s: %d/%d obligations discharged over %d functions, %d known findings, %d violations, %.1fs" % (
             pid, tier, d, n, len(rep["functions"]), len(rep["known"]), len(rep["violations"]), time.time() - t0))
